@@ -54,9 +54,15 @@ const (
 	c07SUp = iota
 	c07SDown
 	c07SErroring
+	c07SMisleading // erroring, and every diagnostic text contains the words "Invalid Credentials"
 )
 
-var c07StatusNames = []string{"SUp", "SDown", "SErroring"}
+var c07StatusNames = []string{"SUp", "SDown", "SErroring", "SMisleading"}
+
+// diagnostics of a replica that is NOT refusing the credentials (its result code is another one) but
+// whose text mentions the words go-ldap prints for result code 49
+var c07MisleadingTexts = []string{"Invalid Credentials", "upstream directory said: Invalid Credentials (retry later)",
+	`LDAP Result Code 49 "Invalid Credentials": relayed`, "backend busy; last error was Invalid Credentials for cn=proxy"}
 
 // ---------------------------------------------------------------- the directory
 
@@ -96,6 +102,7 @@ type c07Directory struct {
 	status    []int
 	binds     int
 	answered  int // binds that got a verdict (success / invalid credentials)
+	conns     []int // per replica: TCP connections that arrived (whatever became of them)
 	urls      []string
 }
 
@@ -110,6 +117,14 @@ func (d *c07Directory) handler(idx int) func(w ldapserver.ResponseWriter, m *lda
 		acct, outOfOrder := d.acct[string(r.Name())]
 		style := d.style
 		d.mu.Unlock()
+		if st == c07SMisleading {
+			codes := []int{ldapserver.LDAPResultBusy, ldapserver.LDAPResultUnavailable, ldapserver.LDAPResultOperationsError, ldapserver.LDAPResultOther,
+				ldapserver.LDAPResultUnwillingToPerform}
+			res := ldapserver.NewBindResponse(codes[n%len(codes)])
+			res.SetDiagnosticMessage(c07MisleadingTexts[(n/len(codes))%len(c07MisleadingTexts)])
+			w.Write(res)
+			return
+		}
 		if st == c07SErroring {
 			// any result code but success / invalidCredentials, with any diagnostic (also ones
 			// that look like a refusal's)
@@ -152,6 +167,7 @@ func (l *c07Listener) Accept() (net.Conn, error) {
 			return conn, err
 		}
 		l.d.mu.Lock()
+		l.d.conns[l.idx]++
 		down := l.d.status[l.idx] == c07SDown
 		l.d.mu.Unlock()
 		if down {
@@ -184,7 +200,7 @@ func c07ServerCert(t *testing.T) (tls.Certificate, *x509.CertPool) {
 func c07StartDirectory(t *testing.T, replicas int) (*c07Directory, *x509.CertPool) {
 	ldapserver.Logger = ldapserver.DiscardingLogger
 	cert, pool := c07ServerCert(t)
-	d := &c07Directory{passwords: map[string]string{}, acct: map[string]int{}, style: 1, status: make([]int, replicas)}
+	d := &c07Directory{passwords: map[string]string{}, acct: map[string]int{}, style: 1, status: make([]int, replicas), conns: make([]int, replicas)}
 	for i := 0; i < replicas; i++ {
 		idx := i
 		server := ldapserver.NewServer()
@@ -383,6 +399,26 @@ func (h *c07Hist) age(dt int64) {
 	h.e.res.bump("op:tick-" + strconv.FormatInt(dt/3600, 10) + "h")
 }
 
+// did a replica that is up receive a connection since the counters [before] were read?  (A login
+// that stops at an earlier replica never contacts it: that is keymaster's decision, not a directory
+// that failed to answer in time.)
+func (h *c07Hist) upContacted(before []int) bool {
+	h.d.mu.Lock()
+	defer h.d.mu.Unlock()
+	for i, s := range h.d.status {
+		if s == c07SUp && h.d.conns[i] > before[i] {
+			return true
+		}
+	}
+	return false
+}
+
+func (h *c07Hist) connCounts() []int {
+	h.d.mu.Lock()
+	defer h.d.mu.Unlock()
+	return append([]int(nil), h.d.conns...)
+}
+
 func (h *c07Hist) anyUp() bool {
 	h.d.mu.Lock()
 	defer h.d.mu.Unlock()
@@ -414,13 +450,14 @@ func (h *c07Hist) login(u, pw int) {
 	h.d.mu.Lock()
 	a0 := h.d.answered
 	h.d.mu.Unlock()
+	c0 := h.connCounts()
 	tBefore := time.Now().Unix()
 	rr, _ := e.env.serve(req)
 	tAfter := time.Now().Unix()
 	h.d.mu.Lock()
 	reallyAnswered := h.d.answered > a0
 	h.d.mu.Unlock()
-	if reallyAnswered != answered && pw != 0 {
+	if reallyAnswered != answered && pw != 0 && h.upContacted(c0) {
 		// the environment's answer is an input of the case: a replica that is up but did not
 		// get to answer within the bind timeout (machine under load) voids the history
 		h.void = true
@@ -631,6 +668,7 @@ func (h *c07Hist) peerLogin(u, pw int) {
 	h.d.mu.Lock()
 	a0 := h.d.answered
 	h.d.mu.Unlock()
+	c0 := h.connCounts()
 	verdict, err := h.peer.pa.PasswordAuthenticate(c07Users[u], []byte(c07PwString(pw)))
 	if err != nil {
 		e.t.Fatalf("peer login: %v", err)
@@ -638,7 +676,7 @@ func (h *c07Hist) peerLogin(u, pw int) {
 	h.d.mu.Lock()
 	reallyAnswered := h.d.answered > a0
 	h.d.mu.Unlock()
-	if reallyAnswered != answered && pw != 0 {
+	if reallyAnswered != answered && pw != 0 && h.upContacted(c0) {
 		h.void = true
 		e.res.bump("void:directory-did-not-answer-as-scripted")
 	}
@@ -827,7 +865,7 @@ func (h *c07Hist) randomOp(allowTamper bool) {
 	case w < 42:
 		h.peerLogin(u, h.somePw(u))
 	case w < 56:
-		h.setServer(rng.Intn(len(h.d.status)), rng.Intn(3))
+		h.setServer(rng.Intn(len(h.d.status)), []int{c07SUp, c07SUp, c07SDown, c07SDown, c07SErroring, c07SErroring, c07SMisleading}[rng.Intn(7)])
 	case w < 60:
 		if _, out := h.acct[u]; out && rng.Intn(2) == 0 {
 			h.setAcct(u, -1)
@@ -1075,6 +1113,26 @@ func TestVerif_C07(t *testing.T) {
 			h.login(2, 2)
 			h.login(2, 3)
 		},
+		func(h *c07Hist) { // a sick replica whose diagnostic TEXT mentions "Invalid Credentials" under another result code
+			h.changePw(1, 1)
+			h.changePw(2, 2)
+			h.login(1, 1)
+			h.login(2, 2)
+			h.setServer(0, c07SMisleading)
+			for k := 0; k < 6; k++ { // every result code / text of the rotation, the healthy second replica decides
+				h.login(1, 1)
+			}
+			h.login(1, 2)
+			h.setServer(1, c07SMisleading)
+			for k := 0; k < 5; k++ { // nobody answers: the cache fills the outage, nothing is evicted
+				h.login(2, 2)
+			}
+			h.login(2, 1)
+			h.setServer(1, c07SDown)
+			h.login(1, 1)
+			h.setMode(c15Dead)
+			h.login(2, 2)
+		},
 		func(h *c07Hist) { // a long directory outage: the hash is USED inside its 96 h, then again after its original expiry
 			h.changePw(1, 1)
 			h.changePw(2, 2)
@@ -1156,7 +1214,7 @@ func TestVerif_C07(t *testing.T) {
 	}
 	for i, sc := range scripted {
 		run(2*i, sc) // two bind patterns
-		if i == 0 || i == 2 || i == 7 || i >= len(scripted)-5 && i < len(scripted)-1 {
+		if i == 0 || i == 2 || i == 7 || i >= len(scripted)-6 && i < len(scripted)-1 {
 			run(2*i+1, sc) // one bind pattern: the cache/outage basics, mixed replica answers, account-state refusals
 		}
 	}
@@ -1194,7 +1252,7 @@ func TestVerif_C07(t *testing.T) {
 			// whatever happened: take the whole directory away and try the passwords
 			for k := range h.d.status {
 				if h.d.status[k] == c07SUp {
-					h.setServer(k, 1+rng.Intn(2))
+					h.setServer(k, 1+rng.Intn(3))
 				}
 			}
 			if shape != 0 && rng.Intn(2) == 0 {
@@ -1276,9 +1334,9 @@ func TestVerif_C07(t *testing.T) {
 	sb.WriteString("Definition c07_ncases := Eval vm_compute in length cases.\nPrint c07_ncases.\n")
 	sb.WriteString("Definition c07_mismatches := Eval vm_compute in mismatches (fun c => negb (pw_case_ok c)) cases.\nPrint c07_mismatches.\n")
 	// the property's predicates on the OBSERVATION of the mismatching cases (a failing input when they hold)
-	sb.WriteString("Definition c07_renewed_violating := Eval vm_compute in mismatches (fun c => negb (pw_case_ok c) && outage_login_renewed c) cases.\nPrint c07_renewed_violating.\n")
+	sb.WriteString("Definition c07_renewed_violating := Eval vm_compute in filter (fun i => match nth_error cases i with Some c => outage_login_renewed c | None => false end) c07_mismatches.\nPrint c07_renewed_violating.\n")
 	sb.WriteString("Definition rec_tables : list (list jws) := [\n" + strings.Join(recTables, ";\n") + "\n].\n")
-	sb.WriteString("Definition c07_stale_violating := Eval vm_compute in mismatches (fun ct => negb (pw_case_ok (fst ct)) && stale_cache_decided (snd ct) (fst ct)) (combine cases rec_tables).\nPrint c07_stale_violating.\n")
+	sb.WriteString("Definition c07_stale_violating := Eval vm_compute in filter (fun i => match nth_error cases i, nth_error rec_tables i with Some c, Some tb => stale_cache_decided tb c | _, _ => false end) c07_mismatches.\nPrint c07_stale_violating.\n")
 	// the backend table: (lower-case name, index of its password in the list above)
 	sb.WriteString("Definition btable : list (bs * N) := [(" + coqPacked([]byte("alice")) + ", 0%N); (" + coqPacked([]byte("bob")) + ", 1%N); (" + coqPacked([]byte("admin")) + ", 2%N)].\n")
 	sb.WriteString("Definition bfile (u : bs) (p : bs) : bool := existsb (fun e => bs_eqb (fst e) u && bs_eqb [snd e] p) btable.\n")
